@@ -314,6 +314,11 @@ def cmdSimCtx (c : SimCtx) (t : List String) : SimCtx × String :=
     match parseW a, (if regs == "-" then some [] else parseList parseReg regs ",") with
     | some a, some rs => ({ c with sim := { s with srDefs := (a, .passByRegister rs) :: s.srDefs.filter (fun p => p.1 != a) } }, "ok")
     | _, _ => bad
+  | ["loadraw", spec] => match parseBlocks spec with
+    | some bs =>
+      let (r, s') := s.loadObj (sortBlocks bs) false
+      ({ c with sim := s' }, resStr r)
+    | none => bad
   | ["load", spec] => match parseBlocks spec with
     | some bs =>
       let (r, s') := s.loadObj (sortBlocks bs) false
